@@ -262,6 +262,17 @@ def run_case(case) -> Result:
         finally:
             if not exited:
                 await man.__aexit__(None, None, None)
+        # ---- every reset, also the manager's own recovery reset (run by the spa's ping loop), closes the endpoint it abandons
+        for r in man.resets:
+            tr = r.get("transport")
+            if tr is None or id(tr) in info["stale"]:
+                continue
+            if not tr.closed or tr.closed_at > r["t1"] + 1.0:
+                origin = "recovery" if r["task"].startswith("SPA:") else "user"
+                res.fail(f"C10|endpoint-open|{origin}-reset|{'completed' if r['completed'] else 'aborted'}",
+                         f"async_reset() run by {r['task']} at {r['t0'] - t_enter:.2f}s ({'completed' if r['completed'] else 'did not complete'}): the connection's endpoint "
+                         f"{tr.local_addr} is {'still open' if not tr.closed else f'closed only {tr.closed_at - r['t1']:.1f}s later'}")
+                break
         # ---- late effects
         for t_, gid, label in info["calls"]:
             g = info["gens"][gid]
